@@ -896,7 +896,10 @@ def subgraph_centrality(CIJ):
     '''
     from scipy import linalg
 
-    vals, vecs = linalg.eig(CIJ)  # compute eigendecomposition
+    if np.allclose(CIJ, np.transpose(CIJ)):
+        vals, vecs = linalg.eigh(CIJ)  # orthonormal basis for symmetric input
+    else:
+        vals, vecs = linalg.eig(CIJ)  # compute eigendecomposition
     # lambdas=np.diag(vals)
     # compute eigenvector centr.
     Cs = np.real(np.dot(vecs * vecs, np.exp(vals)))
